@@ -119,17 +119,33 @@ def theorems(prop):
 
 
 THEOREMS = [
+    # acyclic graphs (no bound on size), repaired module_dfs
     "Iauthd.Properties.C20.ctor_once",
     "Iauthd.Properties.C20.deps_before_ctor_end",
     "Iauthd.Properties.C20.postinit_once_after_deps",
     "Iauthd.Properties.C20.dtor_before_deps",
+    "Iauthd.Properties.C20.C20_acyclic",
+    # every graph
     "Iauthd.Properties.C20.cycle_aborts",
     "Iauthd.Properties.C20.unloadable_aborts",
+    "Iauthd.Properties.C20.success_only_if_clean",
     "Iauthd.Properties.C20.fuel_suffices",
-    "Iauthd.Properties.C20.C20_acyclic",
     "Iauthd.Properties.C20.C20_judge",
+    "Iauthd.Properties.C20.judge_demand_exact",
+    # the pinned module_dfs fails (F20), checked by `decide`
     "Iauthd.Properties.C20.pinned_diamond_aborts",
     "Iauthd.Properties.C20.pinned_triangle_aborts",
+    "Iauthd.Properties.C20.pinned_fails_judge",
+    # the lemmas the above rest on
+    "Iauthd.Module.load_spec",
+    "Iauthd.Module.loadAll_spec",
+    "Iauthd.Module.dfsFixed_spec",
+    "Iauthd.Module.postInitPhase_spec",
+    "Iauthd.Module.closeAll_acyclic",
+    "Iauthd.Module.exitChain_why",
+    "Iauthd.Module.run_acyclic",
+    "Iauthd.Module.run_any",
+    "Iauthd.Module.mustAbort_iff",
 ]
 
 
@@ -142,7 +158,9 @@ def lean_targets(prop):
 
 
 def lean_modules(prop):
-    return ["Iauthd.Module.Model", "Iauthd.Module.Spec", "Iauthd.Module.Proofs", "Iauthd.Properties.C20"]
+    return ["Iauthd.Module.Model", "Iauthd.Module.Spec", "Iauthd.Module.ProofsBasic", "Iauthd.Module.ProofsLoad",
+            "Iauthd.Module.ProofsDfs", "Iauthd.Module.ProofsClose", "Iauthd.Module.ProofsSpec",
+            "Iauthd.Module.Proofs", "Iauthd.Properties.C20"]
 
 
 def checker_cmd(prop):
